@@ -20,8 +20,8 @@ ASSUMPTIONS = [
     "ties: any maximiser is accepted",
     "early stops where get_last_point raises (known findings of C01) are not judged here",
 ]
-FLOOR = {"recommendations_checked": {"quick": 600, "thorough": 4800},
-         "candidates_compared": {"quick": 40000, "thorough": 320000}}
+FLOOR = {"recommendations_checked": {"quick": 20000, "thorough": 160000},
+         "candidates_compared": {"quick": 2000000, "thorough": 16000000}}
 WALL = {"quick": 1200, "thorough": 4 * 3600}
 # order-sensitive histories (the best evaluation is the latest / the first / a recent one at every stopping time): a
 # quarter of the simple-algorithm runs - a candidate list that loses its newest or oldest entry shows only there
